@@ -1305,3 +1305,69 @@ def check_sk_sequence(case):
 
 
 SUBCHECKS.append(SubCheck("sk_norm_sequence", check_sk_sequence, _sk_seq_case, lambda c: f"dims={c['d']},k={c['k']}" if c["k"] >= 2 or c["d"][0] != c["d"][1] else None, quick=600, thorough=10000, shards=8, case_timeout=60))
+
+
+# ------------------------------------------------------------------------------------------------------
+# 14. block positivity of one matrix under two different splits, in one process (added after seeded change C14-u3 - a
+#     module-level cache of the S(k) bounds keyed by the matrix bytes, k and effort but not by `dim` - was missed: the
+#     stale verdict only appears when the *same* array is examined as a (2,3) and then as a (3,2) operator)
+# ------------------------------------------------------------------------------------------------------
+@st.composite
+def _bp_resplit_case(draw):
+    d = list(draw(st.sampled_from([(2, 3), (3, 2), (2, 4), (4, 2)])))
+    return {"d": d, "seed": draw(gen.SEED), "c": draw(st.sampled_from([0.05, 0.1])), "npseed": draw(st.integers(0, 2**32 - 1)), "wseed": draw(gen.SEED)}
+
+
+def _min_product_expectation(x, dims, seed, starts=6, iters=30):
+    """smallest <a (x) b| X |a (x) b> found by alternating eigenvector minimisation (an achieved value)"""
+    da, db = dims
+    t = x.reshape(da, db, da, db)
+    g = gen.rng(seed)
+    best = np.inf
+    for _ in range(starts):
+        b = g.normal(size=db) + 1j * g.normal(size=db)
+        b /= np.linalg.norm(b)
+        for _ in range(iters):
+            ma = np.einsum("j,ijkl,l->ik", b.conj(), t, b)
+            w, v = np.linalg.eigh((ma + ma.conj().T) / 2)
+            a = v[:, 0]
+            mb = np.einsum("i,ijkl,k->jl", a.conj(), t, a)
+            w, v = np.linalg.eigh((mb + mb.conj().T) / 2)
+            b = v[:, 0]
+        best = min(best, float(w[0]))
+    return best
+
+
+def check_bp_resplit(case):
+    from toqito.matrix_props import is_block_positive
+
+    d = case["d"]
+    n = d[0] * d[1]
+    psi = gen.rand_ket(case["seed"], n)
+    sv = np.linalg.svd(psi.reshape(d), compute_uv=False)
+    if sv[0] * sv[1] < 0.3:
+        raise Inconclusive("state not entangled enough")
+    # rho^(T_B) + c I: every product expectation for the split d is >= c (1-block positive by margin)
+    x = ref.partial_transpose(np.outer(psi, psi.conj()), [1], d) + case["c"] * np.eye(n)
+    x = (x + x.conj().T) / 2
+    ds = [d[1], d[0]]
+    low = _min_product_expectation(x, ds, case["wseed"])  # the same matrix read as an operator on d[1] x d[0]
+    expect_other = False if low <= -2e-2 else None
+
+    def call(dims):
+        np.random.seed(case["npseed"])
+        out = is_block_positive(x, 1, list(dims))
+        req(isinstance(out, (bool, np.bool_)), f"is_block_positive returned {type(out).__name__}", "block_positive:type")
+        return bool(out)
+
+    first = call(d)
+    other = call(ds)
+    again = call(d)
+    tag = f"(matrix rho^T_B + {case['c']} I built on dims {d})"
+    req(first, f"is_block_positive(X, 1, {d}) = False although every product expectation is >= {case['c']} {tag}", "block_positive:false-on-block-positive")
+    if expect_other is False:
+        req(not other, f"is_block_positive(X, 1, {ds}) = True although a product vector for that split attains {low:.3f} {tag}; the call came right after the same matrix was examined with dims {d}", "block_positive:true-on-negative")
+    req(again == first, f"is_block_positive(X, 1, {d}) changed from {first} to {again} after a call with dims {ds} {tag}", "block_positive:history-dependent")
+
+
+SUBCHECKS.append(SubCheck("block_positive_resplit", check_bp_resplit, _bp_resplit_case, lambda c: f"dims={c['d']}", quick=96, thorough=1200, case_timeout=90))
